@@ -180,8 +180,12 @@ class _TableFormSection(object):
     table_form_list = []
     for section_name in self._cfg_parser.sections():
       if self.is_relevant_section(section_name):
+        if not self._parse_name(section_name):
+          raise ConfigParserException("A [{0}:NAME] section must name its table form, found '[{1}]'".format(self._section_name_prefix, section_name))
         table_form = self._parse_section(section_name)
         table_form_list.append(table_form)
+      elif section_name.strip() == self._section_name_prefix:
+        raise ConfigParserException("A [{0}:NAME] section must name its table form, found '[{1}]'".format(self._section_name_prefix, section_name))
     return table_form_list
 
   @classmethod
